@@ -235,7 +235,7 @@ Ltac split_and :=
          | H : (_ && _)%bool = true |- _ => apply andb_true_iff in H; destruct H
          end.
 
-Lemma rt_bool b rest : read_value 2 ([if b then 1 else 0] ++ rest) = Ok (VBool b, rest).
+Lemma rt_bool (b : bool) rest : read_value 2 ([if b then 1 else 0] ++ rest) = Ok (VBool b, rest).
 Proof. destruct b; reflexivity. Qed.
 
 Lemma rt_brick n rest : brick_valid n = true ->
@@ -326,26 +326,35 @@ Proof.
   discriminate.
 Qed.
 
+Lemma wf_string_parts s : wf_string s = true -> bytes_ok s = true /\ len32 s = true /\ utf8_valid s = true.
+Proof.
+  unfold wf_string, wf_bytes. intros H. apply andb_true_iff in H. destruct H as [H Hu].
+  apply andb_true_iff in H. destruct H as [Hb Hl]. now repeat split.
+Qed.
+
 Lemma rt_font f rest : wf_value (VFont f) = true ->
   read_value 34 ((write_u16 (fo_weight f) ++ write_u8 (fo_style f) ++ write_string (fo_family f) ++
                   write_string (match fo_cached f with Some s => s | None => [] end)) ++ rest)
   = Ok (norm_value (VFont f), rest).
 Proof.
-  intros H. cbn [wf_value] in H. unfold wf_string, wf_bytes in H. split_and.
-  destruct (font_weight_u16 _ H4) as [Hw Hw']. apply N.leb_le in H1.
+  intros H. cbn [wf_value] in H.
+  apply andb_true_iff in H. destruct H as [H Hc]. apply andb_true_iff in H. destruct H as [H Hst].
+  apply andb_true_iff in H. destruct H as [Hfam Hmem].
+  destruct (wf_string_parts _ Hfam) as [_ [Hfl Hfu]].
+  destruct (font_weight_u16 _ Hmem) as [Hw Hw']. apply N.leb_le in Hst.
   assert (Hs : font_style_or_default (fo_style f) = fo_style f).
   { unfold font_style_or_default. destruct (N.leb_spec (fo_style f) 1); [reflexivity|lia]. }
   open_rv.
   pstep rd_u16. pstep rd_u8. pstep rd_string.
-  rewrite (pbind_ok_intro _ _ _ (fo_family f) _ (from_utf8_ok _ _ _ H2)).
+  rewrite (pbind_ok_intro _ _ _ (fo_family f) _ (from_utf8_ok _ _ _ Hfu)).
   destruct f as [fam w s [c|]]; cbn [fo_family fo_weight fo_style fo_cached norm_value] in *.
-  - unfold wf_string, wf_bytes in H0. split_and.
+  - destruct (wf_string_parts _ Hc) as [_ [Hcl Hcu]].
     pstep rd_string. destruct c as [|x c].
-    + cbn [pbind pret]. unfold pbind at 1, pret at 1. rewrite Hw', Hs. reflexivity.
+    + rewrite Hw', Hs. reflexivity.
     + rewrite (pbind_ok_intro _ _ _ (Some (x :: c)) rest).
-      * rewrite Hw', Hs. reflexivity.
-      * rewrite (pbind_ok_intro _ _ _ (x :: c) rest (from_utf8_ok _ _ _ H5)). reflexivity.
-  - pstep rd_string; [|reflexivity]. unfold pbind at 1, pret at 1. rewrite Hw', Hs. reflexivity.
+      * unfold pret. rewrite Hw', Hs. reflexivity.
+      * rewrite (pbind_ok_intro _ _ _ (x :: c) rest (from_utf8_ok _ _ _ Hcu)). reflexivity.
+  - pstep rd_string. rewrite Hw', Hs. reflexivity.
 Qed.
 
 Lemma rt_cframe c rest : cframe_ok c = true ->
@@ -364,4 +373,162 @@ Proof.
   - pstep rd_u8. cbv beta. rewrite N.eqb_refl.
     pstep rd_vector3. pstep rd_vector3. pstep rd_vector3.
     destruct c as [p [x y z]]; reflexivity.
+Qed.
+
+(* ================================================================ any supported value *)
+Lemma value_roundtrip v id body :
+  wf_value v = true -> from_variant_type (vtype v) = Some id -> write_value v = Ok body ->
+  id < 256 /\
+  exists ty, to_variant_type id = Some ty /\
+             forall rest, read_value ty (body ++ rest) = Ok (norm_value v, rest).
+Proof.
+  intros Hwf Hid Hw.
+  destruct v; cbn [write_value] in Hw; try discriminate Hw; injection Hw as <-;
+    vm_compute in Hid; injection Hid as <-; cbn [wf_value] in Hwf; (split; [reflexivity|]).
+  - (* BinaryString *) exists 1. split; [reflexivity|]. intros rest. unfold wf_bytes in Hwf. split_and.
+    now apply rt_binary_string.
+  - (* Bool *) exists 2. split; [reflexivity|]. intros rest. apply rt_bool.
+  - (* BrickColor *) exists 3. split; [reflexivity|]. intros rest. now apply rt_brick.
+  - (* CFrame *) exists 4. split; [reflexivity|]. intros rest. now apply rt_cframe.
+  - (* Color3 *) exists 5. split; [reflexivity|]. intros rest. split_and. now apply rt_color3.
+  - (* ColorSequence *) exists 7. split; [reflexivity|]. intros rest. split_and. now apply rt_color_sequence.
+  - (* Float32 *) exists 11. split; [reflexivity|]. intros rest. now apply rt_float32.
+  - (* Float64 *) exists 12. split; [reflexivity|]. intros rest. now apply rt_float64.
+  - (* Int32 *) exists 13. split; [reflexivity|]. intros rest. now apply rt_int32.
+  - (* NumberRange *) exists 15. split; [reflexivity|]. intros rest. split_and. now apply rt_number_range.
+  - (* NumberSequence *) exists 16. split; [reflexivity|]. intros rest. split_and. now apply rt_number_sequence.
+  - (* Rect *) exists 19. split; [reflexivity|]. intros rest. split_and. now apply rt_rect.
+  - (* String, read back as BinaryString *) exists 1. split; [reflexivity|]. intros rest. unfold wf_bytes in Hwf. split_and.
+    now apply rt_binary_string.
+  - (* UDim *) exists 25. split; [reflexivity|]. intros rest. now apply rt_udim.
+  - (* UDim2 *) exists 26. split; [reflexivity|]. intros rest. split_and. now apply rt_udim2.
+  - (* Vector2 *) exists 27. split; [reflexivity|]. intros rest. now apply rt_vector2.
+  - (* Vector3 *) exists 29. split; [reflexivity|]. intros rest. now apply rt_vector3.
+  - (* Font *) exists 34. split; [reflexivity|]. intros rest. now apply rt_font.
+  - (* EnumItem *) exists 38. split; [reflexivity|]. intros rest. split_and. apply rt_enum_item; [assumption|now apply N.ltb_lt].
+Qed.
+
+(* ================================================================ the order of names *)
+Lemma bytes_ltb_irrefl a : bytes_ltb a a = false.
+Proof. induction a as [|x a IH]; [reflexivity|]. cbn. now rewrite N.ltb_irrefl. Qed.
+
+Lemma bytes_ltb_asym a : forall b, bytes_ltb a b = true -> bytes_ltb b a = false.
+Proof.
+  induction a as [|x a IH]; intros [|y b]; cbn; try easy.
+  destruct (N.ltb_spec x y), (N.ltb_spec y x); try easy; try lia. apply IH.
+Qed.
+
+Lemma bytes_ltb_neq a : forall b, bytes_ltb a b = true -> bytes_eqb b a = false.
+Proof.
+  induction a as [|x a IH]; intros [|y b]; cbn; try easy.
+  destruct (N.ltb_spec x y) as [H|H].
+  - intros _. destruct (N.eqb_spec y x); [lia|reflexivity].
+  - destruct (N.ltb_spec y x); [easy|]. intros Hab. rewrite (IH _ Hab). apply andb_false_r.
+Qed.
+
+Lemma bytes_ltb_trans a : forall b c, bytes_ltb a b = true -> bytes_ltb b c = true -> bytes_ltb a c = true.
+Proof.
+  induction a as [|x a IH]; intros [|y b] [|z c]; cbn; try easy.
+  destruct (N.ltb_spec x y), (N.ltb_spec y x), (N.ltb_spec y z), (N.ltb_spec z y), (N.ltb_spec x z), (N.ltb_spec z x);
+    try easy; try lia. apply IH.
+Qed.
+
+(* inserting a name greater than all present appends *)
+Lemma amap_insert_append k v acc :
+  forallb (fun e => bytes_ltb (fst e) k) acc = true -> amap_insert k v acc = acc ++ [(k, v)].
+Proof.
+  induction acc as [|[k' v'] r IH]; [reflexivity|]. cbn [forallb fst]. intros H.
+  apply andb_true_iff in H. destruct H as [Hk Hr]. cbn [amap_insert app].
+  rewrite (bytes_ltb_asym _ _ Hk), (bytes_ltb_neq _ _ Hk), (IH Hr). reflexivity.
+Qed.
+
+(* ================================================================ entries and the map *)
+Lemma ok_inj {A} (a b : A) : @Ok A a = Ok b -> a = b.
+Proof. congruence. Qed.
+
+Lemma write_u8_small id : id < 256 -> write_u8 id = [id].
+Proof. intros H. unfold write_u8. cbn. now rewrite N.mod_small. Qed.
+
+Lemma entry_roundtrip k v ebytes rest :
+  wf_entry (k, v) = true -> write_entry (k, v) = Ok ebytes ->
+  read_entry (ebytes ++ rest) = Ok ((k, norm_value v), rest).
+Proof.
+  unfold wf_entry. cbn [fst snd]. intros Hwf Hw. apply andb_true_iff in Hwf. destruct Hwf as [Hk Hv].
+  destruct (wf_string_parts _ Hk) as [_ [Hkl Hku]].
+  unfold write_entry in Hw. destruct (from_variant_type (vtype v)) as [id|] eqn:Hid; [|discriminate].
+  destruct (write_value v) as [body| | |] eqn:Hb; try discriminate. cbn [rbind] in Hw. apply ok_inj in Hw. subst ebytes.
+  destruct (value_roundtrip v id body Hv Hid Hb) as [Hlt [ty [Hty Hrd]]].
+  unfold read_entry.
+  pstep rd_string.
+  rewrite (pbind_ok_intro _ _ _ k _ (from_utf8_ok _ _ _ Hku)).
+  rewrite <- (write_u8_small id Hlt).
+  pstep rd_u8. rewrite Hty.
+  rewrite (pbind_ok_intro _ _ _ (norm_value v) rest (Hrd rest)). reflexivity.
+Qed.
+
+Lemma write_entry_nonempty e b : write_entry e = Ok b -> (1 <= length b)%nat.
+Proof.
+  destruct e as [k v]. unfold write_entry. destruct (from_variant_type (vtype v)); [|discriminate].
+  destruct (write_value v); try discriminate. cbn [rbind]. intros H. apply ok_inj in H. subst b.
+  unfold write_string, write_u32. rewrite !app_length, le_bytes_length. lia.
+Qed.
+
+Lemma write_entries_length m b : write_entries m = Ok b -> (length m <= length b)%nat.
+Proof.
+  revert b. induction m as [|e m IH]; intros b; cbn [write_entries]; [intros [= <-]; cbn; lia|].
+  destruct (write_entry e) as [a| | |] eqn:Ha; try discriminate. cbn [rbind].
+  destruct (write_entries m) as [b'| | |] eqn:Hb; try discriminate. cbn [rbind]. intros [= <-].
+  rewrite app_length. pose proof (write_entry_nonempty _ _ Ha). specialize (IH _ eq_refl). cbn [length]. lia.
+Qed.
+
+Lemma norm_cons e m : norm (e :: m) = (fst e, norm_value (snd e)) :: norm m.
+Proof. reflexivity. Qed.
+
+Lemma read_entries_app m : forall fuel acc body rest,
+  forallb wf_entry m = true -> amap_sorted m = true ->
+  (forall e, In e m -> forallb (fun a => bytes_ltb (fst a) (fst e)) acc = true) ->
+  write_entries m = Ok body -> (length m <= fuel)%nat ->
+  read_entries fuel (N.of_nat (length m)) acc (body ++ rest) = Ok (acc ++ norm m, rest).
+Proof.
+  induction m as [|[k v] m IH]; intros fuel acc body rest Hwf Hs Hacc Hw Hf.
+  - cbn in Hw. injection Hw as <-. destruct fuel; cbn; now rewrite app_nil_r.
+  - cbn [write_entries] in Hw. destruct (write_entry (k, v)) as [a| | |] eqn:Ha; try discriminate. cbn [rbind] in Hw.
+    destruct (write_entries m) as [b'| | |] eqn:Hb; try discriminate. cbn [rbind] in Hw. injection Hw as <-.
+    cbn [forallb] in Hwf. apply andb_true_iff in Hwf. destruct Hwf as [He Hwf].
+    cbn [amap_sorted] in Hs. apply andb_true_iff in Hs. destruct Hs as [Hk Hs].
+    destruct fuel as [|f]; [cbn in Hf; lia|]. cbn [length read_entries].
+    replace (N.eqb (N.of_nat (S (length m))) 0) with false by (symmetry; apply N.eqb_neq; lia).
+    rewrite <- app_assoc, (entry_roundtrip k v a _ He Ha).
+    replace (N.pred (N.of_nat (S (length m)))) with (N.of_nat (length m)) by lia.
+    rewrite (amap_insert_append k (norm_value v) acc (Hacc (k, v) (or_introl eq_refl))).
+    rewrite (IH f (acc ++ [(k, norm_value v)]) b' rest Hwf Hs); [|  | exact eq_refl | cbn in Hf; lia].
+    + rewrite norm_cons, <- app_assoc. reflexivity.
+    + intros e Hin. rewrite forallb_app. rewrite (Hacc e (or_intror Hin)). cbn [forallb fst andb].
+      rewrite forallb_forall in Hk. now rewrite (Hk e Hin).
+Qed.
+
+(* ================================================================ the round trip *)
+Theorem attr_roundtrip m b :
+  wf_amap m = true -> attr_encode m = Ok b -> attr_decode b = Ok (norm m).
+Proof.
+  unfold wf_amap. intros Hwf Henc. apply andb_true_iff in Hwf. destruct Hwf as [Hwf Hent].
+  apply andb_true_iff in Hwf. destruct Hwf as [Hlen Hsort].
+  destruct m as [|e m]; [cbn in Henc; injection Henc as <-; reflexivity|].
+  unfold attr_encode in Henc. destruct (write_entries (e :: m)) as [body| | |] eqn:Hb; try discriminate.
+  cbn [rbind] in Henc. apply ok_inj in Henc. subst b. rewrite (len32_as_u32 _ Hlen).
+  unfold attr_decode, read_attributes, read_option_u32.
+  assert (Hn : N.of_nat (length (e :: m)) < 4294967296) by (unfold len32 in Hlen; now apply N.ltb_lt).
+  assert (Hro : read_exact_or_none 4 (write_u32 (N.of_nat (length (e :: m))) ++ body)
+                = Ok (Some (write_u32 (N.of_nat (length (e :: m)))), body)).
+  { unfold read_exact_or_none.
+    pose proof (take_n_app (write_u32 (N.of_nat (length (e :: m)))) body) as T.
+    unfold write_u32 in T at 1. rewrite le_bytes_length in T. rewrite T.
+    destruct (write_u32 (N.of_nat (length (e :: m))) ++ body) eqn:E; [|reflexivity].
+    apply (f_equal (@length N)) in E. rewrite app_length in E. unfold write_u32 in E. rewrite le_bytes_length in E. cbn in E. lia. }
+  rewrite (pbind_ok_intro _ _ _ _ _ Hro). unfold pret.
+  unfold write_u32 at 1. rewrite (le_roundtrip 4 _ Hn).
+  pose proof (read_entries_app (e :: m) (S (length body)) [] body [] Hent Hsort) as R.
+  rewrite app_nil_r in R. rewrite R; [reflexivity| | exact Hb | ].
+  - intros; reflexivity.
+  - pose proof (write_entries_length _ _ Hb) as L. clear -L. lia.
 Qed.
